@@ -106,6 +106,7 @@ extern "C" void scen_c17_mtbb(mt_case * c) {
                (const char *[]){ "", "(first,last)", "(first,last,step)", "(first,last,step,grain)", "range-based" }[G.kind], G.use_long ? "long" : "int", G.first, G.last, G.step, G.grain);
   if ((G.kind == 1 || G.kind == 2) && empty_range && known("F7")) { mt_known("F7"); mt_reject("index parallel_for over an empty range: known finding F7"); }
   mt_hash(c->prog.p, c->prog.pos);
+  mt_allow_prelude = 1;
   mt_lib_start(c, &e, 0);
   if (G.kind != 0) { long nidx = len > 0 ? (len + G.step - 1) / G.step : 0; create_limit = 4 * nidx + 16; mv_set_point_observer(create_observer); }
   long expect_lo = 0, expect_n = 0;
